@@ -15,6 +15,10 @@ package transport
 
 import (
 	"fmt"
+	"os"
+	"strconv"
+	"strings"
+	"sync"
 	"testing"
 
 	"google.golang.org/grpc/internal/verif/seqx"
@@ -41,22 +45,34 @@ type c04Op struct {
 	o    int64  // padding overhead (pad-length byte + padding)
 }
 
-func c04StreamOps(L int64) []c04Op {
+// c04StreamOps is the alphabet on one inFlow. core selects the reduced
+// alphabet used for the deepest exploration of the thorough tier.
+func c04StreamOps(L int64, core bool) []c04Op {
 	q := L / 4
 	var ops []c04Op
-	for _, n := range []int64{0, 1, q - 1, q, L - 1, L, L + 1} {
+	sizes := []int64{0, 1, q - 1, q, L - 1, L, L + 1}
+	pads := [][2]int64{{1, 1}, {1, 6}, {q, 1}, {q, 6}}
+	reqs := []int64{1, L / 2, L, 3 * L, c04MaxWin, 1<<32 - 1}
+	if core {
+		sizes = []int64{1, q, L, L + 1}
+		pads = [][2]int64{{1, 6}}
+		reqs = []int64{1, L, 3 * L, c04MaxWin}
+	}
+	for _, n := range sizes {
 		ops = append(ops, c04Op{name: fmt.Sprintf("data(%d)", n), kind: "data", n: n})
 	}
 	// padded frames: o = 1 (PADDED flag, pad length 0) or 6 (pad length 5)
-	for _, d := range [][2]int64{{1, 1}, {1, 6}, {q, 1}, {q, 6}} {
+	for _, d := range pads {
 		ops = append(ops, c04Op{name: fmt.Sprintf("dataPadded(%d+%d)", d[0], d[1]), kind: "dpad", n: d[0], o: d[1]})
 	}
 	ops = append(ops, c04Op{name: "padAck", kind: "padack"})
-	for _, n := range []int64{1, L / 2, L, 3 * L, c04MaxWin, 1<<32 - 1} {
+	for _, n := range reqs {
 		ops = append(ops, c04Op{name: fmt.Sprintf("readRequest(%d)", n), kind: "req", n: n})
 	}
 	ops = append(ops, c04Op{name: "read(1)", kind: "read", n: 1})
-	ops = append(ops, c04Op{name: fmt.Sprintf("read(%d)", q), kind: "read", n: q})
+	if !core {
+		ops = append(ops, c04Op{name: fmt.Sprintf("read(%d)", q), kind: "read", n: q})
+	}
 	ops = append(ops, c04Op{name: "read(all)", kind: "read", n: -1})
 	ops = append(ops, c04Op{name: fmt.Sprintf("bdpNewLimit(%d)", 2*L), kind: "bdp", n: 2 * L})
 	return ops
@@ -81,7 +97,7 @@ func c04Names(ops []c04Op) []string {
 //     requestRead(n) (maybeAdjust), then reads until n bytes were consumed; only
 //     then the next request. Reads never exceed what was delivered and unread.
 //   - the peer is arbitrary (it may overrun the window: that must be rejected).
-func c04StreamRunner(L int64, ops []c04Op) func(hist []int) seqx.Outcome {
+func c04StreamRunner(scenario string, L int64, ops []c04Op, known *c04Known) func(hist []int) seqx.Outcome {
 	return func(hist []int) seqx.Outcome {
 		f := &inFlow{limit: uint32(L)}
 		// reference / ledger state
@@ -217,13 +233,16 @@ func c04StreamRunner(L int64, ops []c04Op) func(hist []int) seqx.Outcome {
 				// (c) ceiling: the peer's window (ledger) and the receiver's own
 				// notion of the total it advertised never exceed 2^31-1.
 				if adv := int64(f.limit) + int64(f.delta); W > c04MaxWin || adv > c04MaxWin {
-					key := "ceiling-exceeded"
+					desc := fmt.Sprintf("[L=%d] after %s: the peer's stream window is %d and limit+delta=%d; the ceiling is 2^31-1=%d (%s)", L, op.name, W, adv, c04MaxWin, fields())
 					if bdpDone {
-						// one class for everything downstream of a BDP raise (see
-						// the report: readRequest(~2^31) followed by a limit raise)
-						key = "ceiling-exceeded-after-bdp-raise"
+						// Everything downstream of a BDP raise on top of a capped
+						// extra grant is ONE failure class with one fixed key (a
+						// known finding, see the report); it is collected on the side
+						// and reported once with the shortest history.
+						known.add(scenario, hist[:step+1], ops, desc)
+					} else {
+						fail("ceiling-exceeded", "%s", desc[len(fmt.Sprintf("[L=%d] ", L)):])
 					}
-					fail(key, "after %s: the peer's stream window is %d and limit+delta=%d; the ceiling is 2^31-1=%d (%s)", op.name, W, adv, c04MaxWin, fields())
 				}
 				// (d2) while a read request is outstanding the peer must be able to
 				// send the whole remainder of the requested message (up to the
@@ -257,6 +276,43 @@ func c04StreamRunner(L int64, ops []c04Op) func(hist []int) seqx.Outcome {
 		return out
 	}
 }
+
+// c04Known collects the occurrences of the known failure class
+// "ceiling-exceeded-after-bdp-raise" and keeps the shortest (then
+// alphabet-order smallest) history.
+type c04Known struct {
+	mu       sync.Mutex
+	n        int64
+	scenario string
+	hist     []int
+	names    []string
+	desc     string
+}
+
+func (k *c04Known) add(scenario string, hist []int, ops []c04Op, desc string) {
+	k.mu.Lock()
+	defer k.mu.Unlock()
+	k.n++
+	better := k.hist == nil || len(hist) < len(k.hist)
+	if !better && len(hist) == len(k.hist) && scenario == k.scenario {
+		for i := range hist {
+			if hist[i] != k.hist[i] {
+				better = hist[i] < k.hist[i]
+				break
+			}
+		}
+	}
+	if !better {
+		return
+	}
+	k.scenario, k.hist, k.desc = scenario, append([]int(nil), hist...), desc
+	k.names = k.names[:0]
+	for _, h := range hist {
+		k.names = append(k.names, ops[h].name)
+	}
+}
+
+const c04KnownKey = "ceiling-exceeded-after-bdp-raise"
 
 func c04ConnOps(L int64) []c04Op {
 	q := L / 4
@@ -355,13 +411,33 @@ func TestVerif_C04_InFlow(t *testing.T) {
 	r.Assume(P, "no-wedge reading of 'restored to at least the configured window': the code batches window updates below floor(limit/4), so up to floor(limit/4)-1 bytes are withheld until the next read; the oracle demands W >= limit-(floor(limit/4)-1) > 0 once everything is read, which can never stall a peer able to send frames of any positive size")
 	r.Assume(P, "a SETTINGS_INITIAL_WINDOW_SIZE raise (BDP) is credited to the peer's ledger at the moment newLimit is called")
 	r.Assume(P, "connection-level window: grpc-go never rejects at connection level, so only conforming peers are modelled for trInFlow")
+	known := &c04Known{}
+	defer func() {
+		if known.hist != nil {
+			r.Violation(P, c04KnownKey, known.desc+"\n  shortest history ("+known.scenario+"): "+strings.Join(known.names, " ; ")+fmt.Sprintf("\n  (%d explored histories end in this class)", known.n),
+				map[string]any{"scenario": known.scenario, "ops": known.names})
+		}
+	}()
+	sdepth := r.Pick(7, 9)
+	if v, err := strconv.Atoi(os.Getenv("C04_DEPTH")); err == nil && v > 0 {
+		sdepth = v // experiments only
+	}
 	for _, L := range []int64{16, 65535} {
-		sops := c04StreamOps(L)
+		sops := c04StreamOps(L, false)
 		seqx.BFS(r, []string{P}, seqx.Config{
-			Name: fmt.Sprintf("stream-L%d", L), Ops: c04Names(sops), MaxDepth: r.Pick(7, 10), Parallel: 16,
+			Name: fmt.Sprintf("stream-L%d", L), Ops: c04Names(sops), MaxDepth: sdepth, Parallel: 16,
 			Congruence: r.Thorough(), CongruenceMax: 200, MinStates: 100,
-			Run: c04StreamRunner(L, sops),
+			Run: c04StreamRunner(fmt.Sprintf("stream-L%d", L), L, sops, known),
 		})
+		if r.Thorough() {
+			// deepest exploration on the reduced ("core") alphabet
+			core := c04StreamOps(L, true)
+			seqx.BFS(r, []string{P}, seqx.Config{
+				Name: fmt.Sprintf("stream-core-L%d", L), Ops: c04Names(core), MaxDepth: 10, Parallel: 16,
+				Congruence: true, CongruenceMax: 200, MinStates: 100,
+				Run: c04StreamRunner(fmt.Sprintf("stream-core-L%d", L), L, core, known),
+			})
+		}
 		cops := c04ConnOps(L)
 		seqx.BFS(r, []string{P}, seqx.Config{
 			Name: fmt.Sprintf("conn-L%d", L), Ops: c04Names(cops), MaxDepth: r.Pick(7, 10), Parallel: 16,
